@@ -16,6 +16,7 @@ class Ctx:
         self.repo = repo or factsmod.REPO
         self.facts = factsmod.load_all(self.repo)
         self._paths = {}
+        self._aborted = {}
         self._models = {}
         self.steps = 0
         self.npaths = 0
@@ -54,4 +55,10 @@ class Ctx:
             self.steps += it.steps
             self.npaths += len(ps)
             self._paths[k] = ps
+            self._aborted[k] = it.aborted
         return self._paths[k]
+
+    def aborted(self, cfg, fpath, tag="full"):
+        """paths of fpath that end in a certain panic (computed together with paths())"""
+        self.paths(cfg, fpath, tag=tag)
+        return self._aborted.get((cfg, fpath, tag), [])
